@@ -465,59 +465,92 @@ def _wrap_reduce(orig):
 
 
 # ---- the event queue object
-class TDeque(collections.deque):
-    """the queue's deque: reports append / popleft / len"""
+def _tracking(base):
+    """a subclass of deque / list standing in for the queue's container of not yet snapshotted entries: reports
+    append / removal from the front / length reads; every other way of looking into it is a pre-emption point"""
 
-    def append(self, item):
-        s, c = _ctl()
-        if c is not None:
-            try:
-                e = item[-1][0]
-                i = _ev_id(s, e)
-                if i[0] == 'G':
-                    tl = e.__dict__.get('_c03__time_left', _NOVAL)
-                    if tl is _NOVAL:
-                        tl = cevents.generate_events.__dict__['_time_left']._get(e)
-                    lab = ['AppG', _sign(tl)]
+    class T(base):
+        def append(self, item):
+            s, c = _ctl()
+            if c is not None:
+                try:
+                    e = item[-1][0]
+                    i = _ev_id(s, e)
+                    if i[0] == 'G':
+                        lab = ['AppG', _sign(e.__dict__['_c03_' + NAMES['tl']])]
+                    else:
+                        lab = ['AppF'] if i[0] == 'F' else ['AppO']
+                except Exception as ex:      # entry of an unexpected shape: observation degraded, never an error
+                    lab = ['AppO']
+                    s.degraded.append('queue entry not understood: %s' % type(ex).__name__)
+                if c.in_qapp and COUNTER[0]:
+                    s.emit(lab)             # same step as the read of the counter that numbered the entry
                 else:
-                    lab = ['AppF'] if i[0] == 'F' else ['AppO']
-            except Exception as ex:      # entry of an unexpected shape: observation degraded, never an error
-                lab = ['AppO']
-                s.degraded.append('queue entry not understood: %s' % type(ex).__name__)
-            if c.in_qapp and COUNTER[0]:
-                s.emit(lab)             # same step as the read of the counter that numbered the entry
+                    _visible(lab)
+            base.append(self, item)
+
+        def _moved(self, k):
+            """k entries leave the front for the heap: k Move actions (only the loop thread removes, the other
+            threads only append at the end, so k single moves and one move of k entries are the same)"""
+            s, c = _ctl()
+            if c is None:
+                return
+            if s.park('access'):
+                for _ in range(k):
+                    s.emit(['Move'])
+
+        def popleft(self):
+            self._moved(1)
+            return base.popleft(self)
+
+        def pop(self, *a):
+            if a and a[0] == 0:
+                self._moved(1)
             else:
-                _visible(lab)
-        collections.deque.append(self, item)
+                _visible(None)
+            return base.pop(self, *a)
 
-    # other ways of taking entries out of / looking into the shared deque: pre-emption points without a label
-    def __iter__(self):
-        # iterating (list.extend(deque), list(deque)) is one atomic C-level operation in reality: pre-emption point
-        # before it, then a snapshot, so that parks inside nested hooks (length hint) cannot tear it
-        _visible(None)
-        return iter(list(collections.deque.__iter__(self)))
+        def __delitem__(self, ix):
+            n = base.__len__(self)
+            if isinstance(ix, slice) and ix.indices(n)[0] == 0 and ix.indices(n)[2] == 1:
+                self._moved(max(0, min(n, ix.indices(n)[1])))
+            elif ix == 0:
+                self._moved(1)
+            else:
+                _visible(None)
+            return base.__delitem__(self, ix)
 
-    def clear(self):
-        _visible(None)
-        return collections.deque.clear(self)
+        def __getitem__(self, ix):
+            _visible(None)
+            return base.__getitem__(self, ix)
 
-    def pop(self, *a):
-        _visible(None)
-        return collections.deque.pop(self, *a)
+        def __len__(self):
+            s, c = _ctl()
+            if c is not None and c.idx == 0 and not c.len_quiet:
+                if c.in_qlen:
+                    # total length of the queue read by the loop: the arming test reads it under the lock
+                    _visible(['ArmTest'] if c.locks > 0 else None)
+                elif c.in_disp:
+                    _visible(['Snap'])
+            return base.__len__(self)
 
-    def popleft(self):
-        _visible(['Move'])
-        return collections.deque.popleft(self)
+        # other ways of taking entries out of / looking into the shared container: pre-emption points without label
+        def __iter__(self):
+            # iterating (list.extend(x), list(x)) is one atomic C-level operation in reality: pre-emption point
+            # before it, then a snapshot, so that parks inside nested hooks (length hint) cannot tear it
+            _visible(None)
+            return iter(list(base.__iter__(self)))
 
-    def __len__(self):
-        s, c = _ctl()
-        if c is not None and c.idx == 0 and not c.len_quiet:
-            if c.in_qlen:
-                # total length of the queue read by the loop: the arming test reads it under the lock
-                _visible(['ArmTest'] if c.locks > 0 else None)
-            elif c.in_disp:
-                _visible(['Snap'])
-        return collections.deque.__len__(self)
+        def clear(self):
+            _visible(None)
+            return base.clear(self)
+
+    T.__name__ = 'T' + base.__name__.capitalize()
+    return T
+
+
+TDeque = _tracking(collections.deque)
+TList = _tracking(list)
 
 
 COUNTER = [None]        # name of the queue object's counter attribute, found by install()
@@ -590,8 +623,50 @@ def _wrap_dispatch(orig):
     return dispatchEvents
 
 
-def _deque_attr(q):
-    return [n for n in _attr_names(q) if isinstance(getattr(q, n, None), collections.deque)]
+NAMES = {'handling': '_currently_handling', 'tl': '_time_left', 'pending': None}
+
+
+def _containers(q):
+    return [n for n in _attr_names(q) if isinstance(getattr(q, n, None), (collections.deque, list))]
+
+
+def probe_pending(Q):
+    """name of the container (deque or list) of the queue class that receives a freshly appended entry"""
+    q2 = Q()
+    before = {n: len(getattr(q2, n)) for n in _containers(q2)}
+    q2.append(Event(), ('*',), 0)
+    grown = [n for n in before if len(getattr(q2, n)) == before[n] + 1]
+    return grown[0] if len(grown) == 1 else None
+
+
+def probe_handling(M):
+    """name of the manager attribute that holds the event while its handlers run (and None afterwards)"""
+    found = []
+    m = M()
+
+    class _Probe(BaseComponent):
+        channel = 'c03probe'
+
+        @handler('c03probe')
+        def _on(self, event, *a):
+            found.extend(k for k, v in vars(m).items() if v is event)
+    _Probe().register(m)
+    m.fire(Event.create('c03probe'), 'c03probe')
+    for _ in range(6):
+        m.flush()
+    names = sorted(set(found))
+    if len(names) == 1 and getattr(m, names[0], 0) is None:
+        return names[0]
+    return None
+
+
+def probe_time_left(G):
+    """name of the attribute of generate_events that stores what the public property time_left returns"""
+    g = G(SLock(), 12345.5)
+    names = [k for k, v in vars(g).items() if type(v) is float and v == 12345.5]
+    if len(names) == 1 and g.time_left == 12345.5:
+        return names[0]
+    return None
 
 
 def find_queue(m):
@@ -625,8 +700,10 @@ def queued_entries(q):
         v = getattr(q, n, None)
         if isinstance(v, collections.deque):
             deques += [x for x in collections.deque.__iter__(v) if _is_entry(x)]
+        elif isinstance(v, list) and n == NAMES['pending']:
+            deques += [x for x in list.__iter__(v) if _is_entry(x)]
         elif isinstance(v, list):
-            lists += [x for x in v if _is_entry(x)]
+            lists += [x for x in list.__iter__(v) if _is_entry(x)]
     lists.sort(key=lambda x: tuple(x[:-1]))
     return lists + deques
 
@@ -652,14 +729,29 @@ def install():
         def register(*a, **k):
             return None
     cmanager.atexit = _NoAtexit
-    # _currently_handling
-    if '_currently_handling' not in M.__dict__:
-        MISSING.append('Manager._currently_handling')
-    t = Tracked('_currently_handling', _handling_read, _handling_write)
-    t.default = M.__dict__.get('_currently_handling', None)
-    M._currently_handling = t
-    # generate_events
-    for name, rd, wr in (('_time_left', _tl_read, _tl_write), ('handler', _hd_read, _hd_write)):
+    # the manager attribute publishing the event being handled (behavioural probe; the anchors' name is the fallback)
+    try:
+        hn = probe_handling(M)
+    except Exception:
+        hn = None
+    if hn is None:
+        hn = '_currently_handling'
+        if hn not in M.__dict__:
+            MISSING.append('Manager: no attribute holds the event being handled')
+    NAMES['handling'] = hn
+    t = Tracked(hn, _handling_read, _handling_write)
+    t.default = M.__dict__.get(hn, None)
+    setattr(M, hn, t)
+    # generate_events: the storage behind time_left (probe), and the public attribute handler
+    try:
+        tn = probe_time_left(G)
+    except Exception:
+        tn = None
+    if tn is None:
+        tn = '_time_left'
+        MISSING.append('generate_events: the attribute behind time_left was not identified')
+    NAMES['tl'] = tn
+    for name, rd, wr in ((tn, _tl_read, _tl_write), ('handler', _hd_read, _hd_write)):
         inner = G.__dict__.get(name)
         inner = inner if hasattr(inner, '__set__') and not isinstance(inner, property) else None
         setattr(G, name, Tracked(name, rd, wr, inner))
@@ -680,8 +772,12 @@ def install():
             MISSING.append('%s.%s' % (Q.__name__, name))
         else:
             setattr(Q, name, wrap(Q.__dict__[name]))
-    if len(_deque_attr(q)) != 1:
-        MISSING.append('%s: exactly one deque attribute expected, found %r' % (Q.__name__, _deque_attr(q)))
+    try:
+        NAMES['pending'] = probe_pending(Q)
+    except Exception:
+        NAMES['pending'] = None
+    if NAMES['pending'] is None:
+        MISSING.append('%s: the container that receives appended entries was not identified' % Q.__name__)
     else:
         # the counter that numbers the entries: the int attribute that advances by one per append
         try:
@@ -709,8 +805,6 @@ def install():
             pass
     try:
         g = G(SLock(), -1)
-        if '_c03__time_left' not in g.__dict__ and G.__dict__['_time_left'].inner is None:
-            MISSING.append('generate_events._time_left is not set by the constructor')
         g.handler = _Waiter().on
         CALIB = [0]
         g.reduce_time_left(0)
@@ -727,9 +821,10 @@ def install():
 def instrument_manager(m):
     """replace the deque of this manager's queue object by the reporting deque"""
     q = find_queue(m)
-    names = _deque_attr(q) if q is not None else []
-    if len(names) == 1:
-        setattr(q, names[0], TDeque(getattr(q, names[0])))
+    n = NAMES['pending']
+    if q is not None and n is not None:
+        cur = getattr(q, n)
+        setattr(q, n, (TDeque if isinstance(cur, collections.deque) else TList)(cur))
     if not any(isinstance(v, SLock) for v in vars(m).values()):
         if 'Manager(): no attribute holds the RLock double' not in MISSING:
             MISSING.append('Manager(): no attribute holds the RLock double')
@@ -1101,6 +1196,11 @@ class C03(Prop):
                 for r in range(0, z['rg'] + 2):
                     for i in range(1, 14):
                         sw(mode, timer, [[0, -1], [1, -2], [0, z['jg'], 'v'], [0, r], [1, i], [0, -1], [1, -1], [0, -1]])
+            # the first accesses of a fire() (its reads before it appends) cut off at EVERY position of that tick
+            if tier != 'thorough' and (mode, timer) in (('fallback', False), ('select', False)):
+                for r in range(0, z['r2'] + 2):
+                    for i in range(1, 5):
+                        sw(mode, timer, [[0, -1], [1, -2], [0, r], [1, i], [0, -1], [1, -1], [0, -1]])
             if tier == 'thorough':
                 for r in range(0, z['r2'] + 2):    # the same cut at every position of the second tick, loop continues freely
                     for i in range(1, 15):
